@@ -1,5 +1,5 @@
 """A fresh interpreter with a chosen *first use* of every registered metric, then the same float64 evaluations in every mode.
-usage: prochist.py <source tree> <mode>   mode: none | float32 | int | model-int | model-float32
+usage: prochist.py <source tree> <mode>   mode: none | float32 | int | model-int | model-float32 | model-knn
 Prints one JSON object {identifier: [float.hex of each evaluation or the exception's class name]}.  Used by checks/c07.py: what a
 call returns does not depend on what the process did before - including what it did *first*."""
 import json
@@ -23,7 +23,9 @@ import numpy as np  # noqa: E402
 
 np.seterr(all="ignore")
 import opfython.math.distance as d  # noqa: E402
+from opfython.models.knn_supervised import KNNSupervisedOPF  # noqa: E402
 from opfython.models.supervised import SupervisedOPF  # noqa: E402
+from opfython.models.unsupervised import UnsupervisedOPF  # noqa: E402
 
 names = sorted(d.DISTANCES)
 if mode in ("float32", "int"):
@@ -31,6 +33,19 @@ if mode in ("float32", "int"):
     for nm in names:
         try:
             d.DISTANCES[nm](np.array([1, 0, 2], dtype=dt), np.array([0, 3, 1], dtype=dt))
+        except Exception:
+            pass
+elif mode == "model-knn":
+    # other k-NN models lived in this process before, on OTHER float64 data of the same size, under the same metrics
+    r0 = np.random.default_rng(77)
+    X0 = r0.normal(size=(8, 2)) * 3.0 + 5.0
+    Y0 = np.array([0, 1] * 4)
+    for nm in ("euclidean", "manhattan", "log_squared_euclidean", "canberra"):
+        try:
+            u = UnsupervisedOPF(min_k=1, max_k=3, distance=nm)
+            u.fit(np.abs(X0), Y0)
+            k = KNNSupervisedOPF(max_k=3, distance=nm)
+            k.fit(np.abs(X0), Y0, np.abs(X0[:4]) + 0.1, Y0[:4])
         except Exception:
             pass
 elif mode.startswith("model-"):
@@ -62,4 +77,22 @@ for nm in names:
     except Exception as ex:
         vals.append(type(ex).__name__)
     out[nm] = vals
+# ... and k-NN models built afterwards on float64 data (8 samples, like the histories' data): graph, densities, clusters, answers
+Xk = np.array([[0.2, 0.5], [0.25, 0.1], [0.1, 0.9], [0.8, 0.05], [0.9, 0.3], [0.7, 0.6], [0.45, 0.45], [0.6, 0.2]])
+Yk = np.array([0, 0, 0, 1, 1, 1, 0, 1])
+for nm in ("euclidean", "manhattan", "log_squared_euclidean", "canberra"):
+    vals = []
+    try:
+        u = UnsupervisedOPF(min_k=1, max_k=3, distance=nm)
+        u.fit(Xk, Yk)
+        vals.append([[int(a) for a in n.adjacency] for n in u.subgraph.nodes] + [float(n.density).hex() for n in u.subgraph.nodes] + [int(n.cluster_label) for n in u.subgraph.nodes])
+    except Exception as ex:
+        vals.append(type(ex).__name__)
+    try:
+        k = KNNSupervisedOPF(max_k=3, distance=nm)
+        k.fit(Xk, Yk, Xk[::2] * 0.9 + 0.03, Yk[::2])
+        vals.append([float(n.density).hex() for n in k.subgraph.nodes] + [int(v) for v in k.predict(Xk[::-1] * 0.8 + 0.05)])
+    except Exception as ex:
+        vals.append(type(ex).__name__)
+    out["knn-models:" + nm] = vals
 print("PROCHIST " + json.dumps(out))
